@@ -30,7 +30,11 @@ Search oracle: the property itself on the implementation — sha256 of the image
     2^64 - 1, other device numbers, the same inode numbers on two devices); the tie feeds the model the remapped numbers
     (the shim's log of applied remappings is checked against the map).  Cross-check without injection: a second copy of
     the contents really created in another order on tmpfs (`creation_variant`), contents compared by lstat, images must
-    be equal.  `sensitivity` measures with the model of the non-sorting
+    be equal.  Devices without a mount (seed C11-8): the `sub` assignment puts one to three sub trees / single files of any
+    generated tree (depth 1 and deeper, nested) on another st_dev than their directory; without -o / -xdev the image must
+    equal the single-device runs; with -o / -xdev the foreign entries are content: two readdir orders must agree and, for
+    --pack-dir, the image must be the one of a really created tree WITHOUT them (`xdev_oracle`: the mount point itself is
+    left out, not kept as an empty directory).  `sensitivity` measures with the model of the non-sorting
     iterator which directories of the shaped trees would betray a skipped sort (coverage.distribution).
 """
 import base64
@@ -767,7 +771,76 @@ def scan_walk(root):
     return out
 
 
-INO_MODES = ["asc", "desc", "rand", "hlmin", "hlmax", "hlmid", "hi32", "top63", "mod64", "dev2", "devhi"]
+INO_MODES = ["asc", "desc", "rand", "hlmin", "hlmax", "hlmid", "hi32", "top63", "mod64", "dev2", "devhi", "sub"]
+
+# device numbers handed to the "foreign" sub trees of the `sub` assignment (constants: a replay reproduces them)
+FOREIGN_DEVS = [(7 << 8) | 1, (253 << 8) | 5, (1 << 20) | (8 << 8) | 17, (1 << 44) + 3]
+
+
+def one_fs(case):
+    """does some part of the run stay on one file system (-o / a glob line with -xdev or -mount)?  Then which entries sit
+    on which device is CONTENT of the run, not a host accident."""
+    if case.kind == "dir":
+        return "-o" in case.opts or "--one-file-system" in case.opts
+    return any(l[0] == "glob" and ("-xdev" in l or "-mount" in l) for l in case.packfile)
+
+
+def foreign_choice(walk, seed):
+    """The entries of the tree (paths relative to its root, bytes) that the `sub:<seed>` assignment turns into mount
+    points: one to three of them, each the root of a "foreign" sub tree that reports another st_dev than its parent
+    directory - a directory at depth 1 or deeper with everything below it (a mounted file system, a btrfs subvolume), or
+    a single non-directory (a bind-mounted file); a foreign root may sit inside another one (nested mounts), two of them
+    may report the same device.  A function of the sorted pre-order walk and the seed only.  No candidate cuts the names of
+    a multiply-linked file in two (names of one file live on one file system).  Returns {path: device number}."""
+    names = {}
+    for rel, st in walk:
+        names.setdefault((st.st_dev, st.st_ino), []).append(rel)
+    groups = [v for k, v in names.items() if len(v) > 1]
+    inside = lambda d, q: q == d or q.startswith(d + b"/")
+    dirs, files = [], []
+    for rel, st in walk:
+        if rel == b"":
+            continue
+        if stat.S_ISDIR(st.st_mode):
+            if all(len(set(inside(rel, q) for q in g)) == 1 for g in groups):
+                dirs.append(rel)
+        elif len(names[(st.st_dev, st.st_ino)]) == 1:
+            files.append(rel)
+    rnd = random.Random("sub/%s/%d" % (seed, len(walk)))
+    nonempty = [d for d in dirs if any(q.startswith(d + b"/") for q, _ in walk)]
+    deep = [d for d in nonempty if d.count(b"/") >= 1]
+    chosen = []
+    # first root: a directory that holds something (half of the time one below the top level, if there is one) ...
+    if deep and rnd.random() < 0.5:
+        chosen.append(rnd.choice(deep))
+    elif nonempty:
+        chosen.append(rnd.choice(nonempty))
+    # ... then up to two more of any kind (empty directories and single files included), nested or not
+    rest = [c for c in dirs + files if c not in chosen]
+    rnd.shuffle(rest)
+    want = rnd.choice([0, 1, 1, 2]) if chosen else rnd.choice([1, 2])
+    if files and rnd.random() < 0.6:
+        f = rnd.choice(files)
+        rest = [f] + [c for c in rest if c != f]
+    chosen += rest[:want]
+    out = {}
+    for j, c in enumerate(chosen):
+        out[c] = FOREIGN_DEVS[0] if (j == 2 and rnd.random() < 0.4) else FOREIGN_DEVS[j]
+    return out
+
+
+def foreign_roots(desc):
+    """[path] of the entries of an assignment (rows [path, dev, ino] in scan order) that report another device than their
+    parent directory - what dir_unix.c flags as mount points"""
+    dev = {r[0]: r[1] for r in desc}
+    out = []
+    for q, d, _ in desc:
+        if q == ".":
+            continue
+        par = q.rsplit("/", 1)[0] if "/" in q else "."
+        if dev.get(par) != d:
+            out.append(q)
+    return out
 
 
 def ino_assignment(root, imode):
@@ -783,6 +856,9 @@ def ino_assignment(root, imode):
       top63        numbers straddling 2^63, the largest is 2^64 - 1
       dev2         asc, every device number replaced by another constant (2^40 + 17 + k)
       devhi        random numbers, device numbers 2^64 - 1 - k
+      sub:<s>      one to three SUB TREES (or single files) report another device than the directory they sit in
+                   (`foreign_choice`: a mount point / subvolume / bind-mounted file at depth 1 or deeper, possibly nested)
+                   without any real mount; inode numbers ascending along the scan per device from the same base
     Equal stays equal (hard links stay hard links, a mount point stays one).  Returns ({(dev, ino): (ndev, nino)},
     [[path, ndev, nino]] in scan order)."""
     walk = scan_walk(root)
@@ -801,8 +877,37 @@ def ino_assignment(root, imode):
     rnd = random.Random("ino/%s/%d" % (imode, n))
     devs = sorted(set(d for d, _ in objs))
     devmap = {d: d for d in devs}
+    real_dev = {}
     perm = list(range(n))
     rnd.shuffle(perm)
+    if name == "sub":
+        foreign = foreign_choice(walk, imode.partition(":")[2])
+        taken = set(devs)
+        fdev = {}
+        for q, d in foreign.items():
+            while d in taken:
+                d += 1 << 8
+            fdev[q] = d
+        adev, odev, cnt, nums = {}, {}, {}, []
+        for rel, st in walk:
+            par = rel.rsplit(b"/", 1)[0] if b"/" in rel else b""
+            if rel in fdev:
+                adev[rel] = fdev[rel]
+            elif rel == b"" or real_dev[par] != st.st_dev:
+                adev[rel] = st.st_dev            # the root / a real mount point keeps the device the host reports
+            else:
+                adev[rel] = adev[par]
+            real_dev[rel] = st.st_dev
+            odev.setdefault((st.st_dev, st.st_ino), adev[rel])
+        for k in objs:
+            i = cnt.get(odev[k], 0)
+            cnt[odev[k]] = i + 1
+            nums.append(2 + i)
+        imap = {k: (odev[k], nums[i]) for i, k in enumerate(objs)}
+        assert len(set(imap.values())) == len(imap)
+        desc = [[rel.decode("utf-8", "surrogateescape") or ".", imap[(st.st_dev, st.st_ino)][0], imap[(st.st_dev, st.st_ino)][1]]
+                for rel, st in walk]
+        return imap, desc
     if name in ("asc", "desc", "dev2"):
         cnt, tot = {}, {}
         for d, _ in objs:
@@ -1353,38 +1458,40 @@ def tie_image_one(tools, text, img_path):
 # search oracle: the property on the real tool
 # --------------------------------------------------------------------------------------------
 
-def order_oracle(tools, case, modes, workdir, assigned=None):
+def order_oracle(tools, case, modes, workdir, assigned=None, root=None, tag="o"):
     """sha256 of the image (and exit status) of the real gensquashfs under each readdir order x inode number
-    assignment ('<order>@<assignment>', see split_mode / ino_assignment; no '@': the host's numbers)."""
+    assignment ('<order>@<assignment>', see split_mode / ino_assignment; no '@': the host's numbers).  `root`: pack that
+    directory instead of the case's tree (same options)."""
     out = {}
     listed = {}
+    troot = root or case.root
     for m in modes:
         rmode, imode = split_mode(m)
-        img = os.path.join(workdir, "o.%s.sqfs" % mtag(m))
+        img = os.path.join(workdir, "%s.%s.sqfs" % (tag, mtag(m)))
         if os.path.exists(img):
             os.unlink(img)
-        log = os.path.join(workdir, "olog.%s" % mtag(m))
+        log = os.path.join(workdir, "%slog.%s" % (tag, mtag(m)))
         if os.path.exists(log):
             os.unlink(log)
         imap, inofile = {}, None
         st_over = stat_spec(case, stat_of(m))
         if imode:
-            imap, desc = ino_assignment(case.root, imode)
+            imap, desc = ino_assignment(troot, imode)
             if assigned is not None:
                 assigned[m] = desc
         elif st_over:
-            imap = identity_imap(case.root)
+            imap = identity_imap(troot)
         if imap:
-            inofile = write_inomap(imap, os.path.join(workdir, "inomap.o.%s" % mtag(m)))
-        rc, err = run_packer(tools["gensquashfs"], tools["shim"], rmode, case.args(img), workdir, log=log, inomap=inofile,
+            inofile = write_inomap(imap, os.path.join(workdir, "inomap.%s.%s" % (tag, mtag(m))))
+        rc, err = run_packer(tools["gensquashfs"], tools["shim"], rmode, case.args(img, root=troot), workdir, log=log, inomap=inofile,
                              statspec=stat_env(st_over))
         check_shim_imap(imap, parse_shim_imap(log), rc, "oracle, case %s, %s" % (case.cid, m))
         check_shim_stat(st_over, log, rc, "oracle, case %s, %s" % (case.cid, m))
         seen = parse_shim_log(log)
-        root = os.path.realpath(os.fsencode(case.root))
-        listed[m] = {(d[len(root) + 1:].decode("utf-8", "surrogateescape") or "."):
+        rr = os.path.realpath(os.fsencode(troot))
+        listed[m] = {(d[len(rr) + 1:].decode("utf-8", "surrogateescape") or "."):
                      [n.decode("utf-8", "surrogateescape") for n in names]
-                     for d, names in seen.items() if d == root or d.startswith(root + b"/")}
+                     for d, names in seen.items() if d == rr or d.startswith(rr + b"/")}
         if rc == 0 and not seen:
             raise RuntimeError("readdir shim saw no directory in a successful gensquashfs run (mode %s): the tool no longer "
                                "enumerates directories through readdir, the injected orders are not in effect" % m)
@@ -1528,6 +1635,52 @@ def creation_oracle(ctx, tools, case, how, workdir, base_result):
                     on=os.path.dirname(d), stderr=err[-200:])
     finally:
         shutil.rmtree(d, ignore_errors=True)
+
+
+# --------------------------------------------------------------------------------------------
+# -o / -xdev: which entries report another device than the directory they sit in IS content.  What the run has to do
+# with them: gensquashfs(1) "stay in the local filesystem and do not cross mount points"; the code (dir_tree_iterator.c
+# should_skip, ScanModel.classify = DSkip) LEAVES OUT every entry - directory or not - whose st_dev differs from that of
+# the directory it was read from, the mount point directory itself included (it is not kept as an empty directory), and
+# everything below it.  Checked on the real tool: the image of the tree with foreign sub trees (`sub` assignment) must be
+# byte-identical to the image of a second, really created tree that lacks exactly those entries, on a single device.
+# --------------------------------------------------------------------------------------------
+
+def xdev_oracle(ctx, tools, case, xmodes, workdir):
+    """`xmodes`: runs '<order>@sub:<s>' of a one-file-system case, all with the same <s>.  Returns a dict:
+    results (mode -> (rc, sha)), foreign (the mount points), pruned = (rc, sha) of the tree without them or None (not
+    comparable), listed, assigned."""
+    assigned = {}
+    res, _, listed = order_oracle(tools, case, xmodes, workdir, assigned, tag="x")
+    out = dict(results=res, listed=listed, assigned=assigned, foreign=[], pruned=None, pruned_mode=None)
+    desc = assigned.get(xmodes[0]) or []
+    foreign = foreign_roots(desc)
+    out["foreign"] = foreign
+    out["why"] = "pack file / real mount"
+    if case.kind != "dir" or case.mount:
+        # pack files: a glob line may start the scan at a sub directory (which then is the "local" file system) and only
+        # some lines may carry -xdev; there the tie (model fed the same devices) and the agreement of the orders remain
+        return out
+    gone = lambda q: any(q == f or q.startswith(f + "/") for f in foreign)
+    pspec = [e for e in case.spec if not gone(e["p"])]
+    proot = os.path.join(workdir, "pruned", "tree")
+    shutil.rmtree(os.path.dirname(proot), ignore_errors=True)
+    os.makedirs(os.path.dirname(proot))
+    try:
+        materialize(pspec, proot)
+        full = [x for x in tree_signature(case.root) if not gone(x[0].decode("utf-8", "surrogateescape"))]
+        if tree_signature(proot) != full:
+            out["why"] = "host did not reproduce the contents"
+            return out
+    except OSError:
+        out["why"] = "host did not reproduce the contents"
+        return out
+    pm = "%s@asc" % split_mode(xmodes[0])[0]
+    pres, _, _ = order_oracle(tools, case, [pm], workdir, None, root=proot, tag="xp")
+    out["pruned"] = pres[pm]
+    out["pruned_mode"] = pm
+    out["pruned_paths"] = [e["p"] for e in pspec]
+    return out
 
 
 # --------------------------------------------------------------------------------------------
@@ -1767,13 +1920,23 @@ def modes_for(ctx, case, rnd, k, ci=0):
         # two devices: the same inode numbers on both (asc), other device numbers that differ in their minor part only
         out += ["sorted@asc", "sorted@dev2", "sorted@devhi"]
     out = list(dict.fromkeys(out))
+    # ... and the DEVICE dimension without any real mount (`sub`): one to three sub trees / single files report another st_dev
+    # than the directory they sit in.  Without -o / -xdev that is a host accident like the numbers above: same image demanded
+    # (these runs simply join the list).  With -o / -xdev it is content: check_case takes the `sub` runs of such a case out
+    # of the list and hands them to xdev_oracle (two orders, same sub trees; image = that of the tree without them).
+    subs = ["sub:%d" % (ci * 7 + 1)] if k <= 6 else ["sub:%d" % (ci * 7 + j) for j in (1, 2, 3)]
+    if one_fs(case):
+        sub_runs = ["%s@%s" % (o, subs[0]) for o in (["sorted", "reverse"] if k <= 6 else ["sorted", "reverse", ms[3], ms[4]])]
+    else:
+        sub_runs = ["%s@%s" % (["sorted", "reverse", ms[4]][(ci + j) % 3], sb) for j, sb in enumerate(subs)]
+    out = list(dict.fromkeys(out))
     # ... and two (thorough: all) runs that repeat an earlier one with the OTHER host-specific stat fields replaced as well
     # (STAT_PROFILES: st_size / st_nlink of directories, st_blocks, st_blksize, st_atime, st_ctime, st_rdev of non-devices,
     # d_type = DT_UNKNOWN, st_mtime unless times are kept); the profiles rotate with the case
     ns = len(STAT_NAMES)
     profs = [STAT_NAMES[(2 * ci) % ns], STAT_NAMES[(2 * ci + 1) % ns]] if k <= 6 else STAT_NAMES
     out += ["%s%%%s" % (out[1 + j % 2], pr) for j, pr in enumerate(profs)]
-    return out
+    return out + sub_runs
 
 
 def check_case(ctx, tools, case, tie_modes, oracle_modes):
@@ -1789,11 +1952,21 @@ def check_case(ctx, tools, case, tie_modes, oracle_modes):
                 out["sens"] = sensitivity(tools, case, out["ties"][0]["_dlines"], out["ties"][0]["_order"], out["ties"][0].get("_imap"),
                                           out["ties"][0].get("_st"))
             modes = list(oracle_modes)
+            # with -o / -xdev the sub trees on another device are content: those runs are compared among themselves and with
+            # the tree that lacks them (xdev_oracle), not with the single-device runs
+            xmodes = [m for m in modes if split_mode(m)[1].startswith("sub")] if one_fs(case) else []
+            modes = [m for m in modes if m not in xmodes]
             if broken:
                 modes = list(dict.fromkeys(modes + ["none", "sorted", "reverse", "rot:1", "rot:2", "rot:3", "rrot:1", "rrot:2"] +
                                            ["seed:%d" % s for s in range(1, 13)] +
                                            ["sorted@%s" % x for x in ["asc", "desc", "rand:1", "rand:2", "hlmax:1", "hlmin:1", "hlmid:1",
-                                                                      "hi32", "mod64", "top63", "dev2", "devhi"]]))
+                                                                      "hi32", "mod64", "top63", "dev2", "devhi"] +
+                                            ([] if one_fs(case) else ["sub:1", "sub:2", "sub:3", "sub:4"])]))
+            if xmodes:
+                by_seed = {}
+                for m in xmodes:
+                    by_seed.setdefault(split_mode(m)[1], []).append(m)
+                out["xdev"] = [xdev_oracle(ctx, tools, case, ms_, wd) for ms_ in by_seed.values()]
             assigned = {}
             res, groups, listed = order_oracle(tools, case, modes, wd, assigned)
             out["oracle"] = res
@@ -1874,7 +2047,10 @@ def report_case(ctx, r, stats):
         stats["oracle_bad_numbers"] = stats.get("oracle_bad_numbers", 0) + (1 if by_numbers else 0)
         stats["oracle_bad_stat"] = stats.get("oracle_bad_stat", 0) + (1 if by_stat else 0)
         f09 = has_multilink(case.spec) and case.hl_active() and not by_numbers and not by_stat
+        by_device = by_numbers and any(split_mode(m)[1].startswith("sub") for m in (ma[0], mb[0]))
+        stats["oracle_bad_device"] = stats.get("oracle_bad_device", 0) + (1 if by_device else 0)
         sig = F09_SIG if f09 else ("host-stat-dependent-image:%s" if by_stat else
+                                   "host-device-dependent-image:%s" if by_device else
                                    "host-number-dependent-image:%s" if by_numbers else "order-dependent-image:%s") % case.kind
         show = lambda v: ("sha256 " + v[1][:16]) if v[1] else "exit %d" % v[0]
         opts_s = " ".join(case.opts + (["-F pack.txt"] if case.kind == "file" else []))
@@ -1892,12 +2068,18 @@ def report_case(ctx, r, stats):
             def brief(m):
                 if m not in asg:
                     return "the host's numbers"
+                if split_mode(m)[1].startswith("sub"):
+                    dev = {x[0]: x[1] for x in asg[m]}
+                    return ("one device but for the sub trees / files " +
+                            " ".join("%s=dev %d" % (q, dev[q]) for q in foreign_roots(asg[m])))[:200]
                 rows = [x for x in asg[m] if x[0] in linked or len(asg[m]) <= 8] or asg[m][:8]
                 return " ".join("%s=%s%d" % (q, ("%d:" % d) if split_mode(m)[1].startswith("dev") else "", i) for q, d, i in rows)[:160]
+            dev_s = ("; no -o / -xdev in effect: a sub tree on another st_dev - mount point, subvolume, bind-mounted file - is to be "
+                     "packed like any other") if by_device else ""
             what = ("gensquashfs %s writes different images for the same directory, enumerated in the same order (%s), when only "
-                    "the inode / device numbers the host reports differ (equal numbers stay equal): assignment %s [%s] -> %s, "
+                    "the inode / device numbers the host reports differ (equal numbers stay equal%s): assignment %s [%s] -> %s, "
                     "assignment %s [%s] -> %s%s" % (
-                        opts_s, split_mode(ma[0])[0], split_mode(ma[0])[1] or "host", brief(ma[0]), show(va),
+                        opts_s, split_mode(ma[0])[0], dev_s, split_mode(ma[0])[1] or "host", brief(ma[0]), show(va),
                         split_mode(mb[0])[1] or "host", brief(mb[0]), show(vb), diff_s))
         else:
             what = ("gensquashfs %s writes different images for the same directory under two readdir orders: "
@@ -1912,6 +2094,44 @@ def report_case(ctx, r, stats):
                                           stat_fields={m: stat_spec(case, stat_of(m)) for m in (ma[0], mb[0]) if stat_of(m)},
                                           result={m: list(v) for m, v in (r["oracle"] or {}).items()},
                                           packfile_text=packfile_text(case.packfile) if case.packfile else None))
+    for x in r.get("xdev") or []:
+        stats["xdev_cases"] = stats.get("xdev_cases", 0) + 1
+        stats["xdev_runs"] = stats.get("xdev_runs", 0) + len(x["results"]) + (1 if x["pruned"] else 0)
+        stats["xdev_foreign"] = stats.get("xdev_foreign", 0) + len(x["foreign"])
+        vals = set(x["results"].values())
+        opts_x = " ".join(case.opts + (["-F pack.txt"] if case.kind == "file" else []))
+        showx = lambda v: ("sha256 " + v[1][:16]) if v[1] else "exit %d" % v[0]
+        rep = dict(case=case.to_json(), modes=list(x["results"]), foreign_entries=x["foreign"],
+                   inode_numbers=x["assigned"], readdir_orders=x["listed"], result={m: list(v) for m, v in x["results"].items()},
+                   packfile_text=packfile_text(case.packfile) if case.packfile else None)
+        if len(vals) > 1:
+            concrete = True
+            stats["xdev_bad"] = stats.get("xdev_bad", 0) + 1
+            sig = "order-dependent-image:%s:one-file-system" % case.kind
+            if sig not in stats["reported"]:
+                stats["reported"].add(sig)
+                ctx.violation(sig, "gensquashfs %s writes different images for the same directory, the same entries [%s] reporting another "
+                              "st_dev than the directory they sit in, under different readdir orders: %s" % (
+                                  opts_x, " ".join(x["foreign"]), ", ".join("%s -> %s" % (m, showx(v)) for m, v in x["results"].items())), rep)
+        if x["pruned"] is None:
+            stats["xdev_not_comparable"] = stats.get("xdev_not_comparable", 0) + 1
+            stats.setdefault("xdev_why", {})[x.get("why")] = stats.setdefault("xdev_why", {}).get(x.get("why"), 0) + 1
+        elif any(v != x["pruned"] for v in vals):
+            stats["xdev_pruned_compared"] = stats.get("xdev_pruned_compared", 0) + 1
+            concrete = True
+            stats["xdev_bad"] = stats.get("xdev_bad", 0) + 1
+            sig = "one-file-system:image-differs-from-tree-without-foreign-entries:%s" % case.kind
+            if sig not in stats["reported"]:
+                stats["reported"].add(sig)
+                m0 = next(m for m, v in x["results"].items() if v != x["pruned"])
+                ctx.violation(sig, "gensquashfs %s: the entries [%s] report another st_dev than the directory they sit in (injected under "
+                              "stat; no real mount); with -o they and everything below them are to be left out (not even kept as empty "
+                              "directories), i.e. the image must be the one of the same tree without them: run %s -> %s, really created "
+                              "tree without them (%s, single device) -> %s" % (
+                                  opts_x, " ".join(x["foreign"]), m0, showx(x["results"][m0]), x["pruned_mode"], showx(x["pruned"])),
+                              dict(rep, pruned_tree_paths=x.get("pruned_paths"), pruned_result=list(x["pruned"])))
+        else:
+            stats["xdev_pruned_compared"] = stats.get("xdev_pruned_compared", 0) + 1
     for v in r.get("variants") or []:
         if v is None:
             stats["variants_skipped"] = stats.get("variants_skipped", 0) + 1
@@ -2025,7 +2245,13 @@ def run(ctx):
         else:
             tie_modes = [ms[2], ms[0], ms[3], ms[4]]
         # the last tie run sees the other host-specific stat fields replaced too (the model is fed st_mtime / st_rdev as replaced)
-        tie_modes[-1] = "%s%%%s" % (strip_stat(tie_modes[-1]), STAT_NAMES[(ci + 3) % len(STAT_NAMES)])
+        # ... and, in every one-file-system case and every second other case, sub trees on another device (the model is fed the
+        # remapped st_dev: ScanModel.classify drops an entry whose device differs from its directory's under -o / -xdev, keeps
+        # and enters it otherwise)
+        last = strip_stat(tie_modes[-1])
+        if one_fs(c) or ci % 2 == 0:
+            last = "%s@sub:%d" % (split_mode(last)[0], ci * 7 + 1)
+        tie_modes[-1] = "%s%%%s" % (last, STAT_NAMES[(ci + 3) % len(STAT_NAMES)])
         jobs.append((c, tie_modes, ms))
     # the mount cases must not run concurrently with the removal of other scratch dirs: they are self-contained
     t_tool = time.time()
@@ -2052,6 +2278,15 @@ def run(ctx):
             "(%d not comparable: the host did not reproduce the contents), %d with another image"
             % (" ".join(INO_MODES), stats.get("oracle_bad_numbers", 0), stats.get("variants_run", 0), " ".join(CREATION_VARIANTS),
                stats.get("variants_on", "-"), stats.get("variants_skipped", 0), stats.get("variants_bad", 0)))
+    n_sub = sum(1 for j in jobs for m in j[2] if split_mode(m)[1].startswith("sub"))
+    ctx.log("devices without a mount: %d oracle runs and %d tie runs see one to three sub trees / single files (depth 1 and deeper, "
+            "nested) on another st_dev than their directory; no -o / -xdev: image must equal the single-device runs (%d cases "
+            "where it does not); -o / -xdev: %d cases, %d foreign entries, two readdir orders must agree and (--pack-dir) equal the "
+            "image of a really created tree WITHOUT those entries - the mount point itself is left out, not kept as an empty "
+            "directory - (%d compared, %d not comparable %r, %d bad)"
+            % (n_sub, sum(1 for j in jobs for m in j[1] if split_mode(m)[1].startswith("sub")), stats.get("oracle_bad_device", 0),
+               stats.get("xdev_cases", 0), stats.get("xdev_foreign", 0), stats.get("xdev_pruned_compared", 0),
+               stats.get("xdev_not_comparable", 0), stats.get("xdev_why", {}), stats.get("xdev_bad", 0)))
     n_stat = sum(1 for j in jobs for m in j[2] if stat_of(m))
     ctx.log("host stat fields: %d oracle runs and %d tie runs repeat another run with st_size / st_nlink of directories, st_blocks, "
             "st_blksize, st_atime, st_ctime, st_rdev of non-devices, st_size of fifos / sockets / nodes, d_type (DT_UNKNOWN) and - unless "
@@ -2083,7 +2318,8 @@ def run(ctx):
         "(host order, sorted, reverse - together both relative orders of every pair of siblings -, a rotation of each, seeded "
         "shuffles), each but the host order under an injected bijection of the inode / device numbers (ascending, descending, random, "
         "multiply-linked files smallest / largest / in the middle, equal low 32 bits, equal modulo 64, around 2^63, other device "
-        "numbers), of these two (thorough: six) repeated with the remaining host-specific stat fields replaced by a profile (ramfs: "
+        "numbers; one to three sub trees / single files on another st_dev than their directory, without a real mount: same image "
+        "without -o / -xdev, image of the tree without them with -o), of these two (thorough: six) repeated with the remaining host-specific stat fields replaced by a profile (ramfs: "
         "directory size 0; btrfs: directory nlink 1; nfs: no d_type, 1 MiB st_blksize; huge; zero; dtype), plus second copies of the contents created in another order on tmpfs; component level: %d add sequences (2 random orders of each entry set, 40%% 'wild' "
         "with duplicate paths, unclean/dangling/chained hard link targets, out-of-range mtimes). non-trivial = packer succeeded on a "
         "tree with >= 3 entries / component dump with > 4 lines"
@@ -2100,6 +2336,10 @@ def run(ctx):
     ctx.coverage["search_oracle"] = dict(images_hashed=n_oracle + stats.get("variants_run", 0), order_dependent_cases=stats["oracle_bad"],
                                          number_dependent_cases=stats.get("oracle_bad_numbers", 0),
                                          stat_profile_runs=n_stat, stat_profiles=STAT_PROFILES,
+                                         foreign_subtree_runs=n_sub, device_dependent_cases=stats.get("oracle_bad_device", 0),
+                                         one_file_system_cases=stats.get("xdev_cases", 0),
+                                         one_file_system_compared_with_pruned_tree=stats.get("xdev_pruned_compared", 0),
+                                         one_file_system_bad=stats.get("xdev_bad", 0),
                                          stat_field_dependent_cases=stats.get("oracle_bad_stat", 0),
                                          creation_order_copies=stats.get("variants_run", 0),
                                          creation_order_copies_not_comparable=stats.get("variants_skipped", 0),
@@ -2111,7 +2351,7 @@ def run(ctx):
             smp.append(dict(case=r["case"].cid, opts=r["case"].opts, readdir_order=t["mode"], impl_head=t["impl"][:4],
                             model_head=(t.get("model") or [])[:4]))
     ctx.add_samples(smp)
-    if stats["tie_bad"] or stats["oracle_bad"] or stats.get("variants_bad"):
+    if stats["tie_bad"] or stats["oracle_bad"] or stats.get("variants_bad") or stats.get("xdev_bad"):
         ctx.tie_broken.append("tie 1 (scan)")
 
     if ctx.tier == "thorough" and ctx.proof and ctx.proof.get("ok"):
